@@ -70,7 +70,12 @@ def gen_init(rng, thorough=False):
                             dseed=rng.randrange(10 ** 6), p_drop=rng.choice([0.0, 0.3, 0.3, 0.6]),
                             p_zero=rng.choice([0.0, 0.0, 0.1, 0.3]), shuffle=rng.random() < 0.4,
                             via=rng.choice(['from_func', 'from_func', 'from_ndarray'])))
-    return dict(mods=mods, pool=pool, tensors=tensors)
+    init = dict(mods=mods, pool=pool, tensors=tensors)
+    # some histories live on a DipolarChargeInfo (charge 0 = the charge, charge 1 = its dipole moment): the only
+    # ChargeInfo whose shift_charges / shift_charges_horizontal act non-trivially
+    if len(mods) >= 2 and (mods[0] == 1 or (mods[1] != 1 and mods[0] % mods[1] == 0)) and rng.random() < 0.5:
+        init['dipolar'] = dict(charge_idcs=[0], dipole_idcs=[1], dipole_dims=[0])
+    return init
 
 
 def int_func(rs, dtype):
@@ -107,8 +112,24 @@ def build_one(t, pool_legs, io, npc):
     return a
 
 
+def make_leg_ci(d, ci):
+    """like vlib.npcio.make_leg, for a given ChargeInfo instance"""
+    from tenpy.linalg.charges import LegCharge, QTYPE
+    ch = np.array(d['charges'], dtype=QTYPE).reshape(len(d['charges']), len(d['mods']))
+    if d.get('ctor', 'init') == 'qind':
+        return LegCharge.from_qind(ci, d['slices'], ch, d['qconj'])
+    return LegCharge(ci, d['slices'], ch, d['qconj'])
+
+
 def build_init(init, io, npc):
-    pool_legs = [io.make_leg(d) for d in init['pool']]
+    if init.get('dipolar'):
+        from tenpy.linalg.charges import DipolarChargeInfo
+        dp = init['dipolar']
+        ci = DipolarChargeInfo(list(init['mods']), None, list(dp['charge_idcs']), list(dp['dipole_idcs']),
+                               list(dp['dipole_dims']))
+        pool_legs = [make_leg_ci(d, ci) for d in init['pool']]
+    else:
+        pool_legs = [io.make_leg(d) for d in init['pool']]
     env = {}
     for t in init['tensors']:
         env[t['name']] = build_one(t, pool_legs, io, npc)
